@@ -1,0 +1,4 @@
+// Package verifhook gives verification harnesses outside this module access to
+// the internal packages (enc, natsort, gep). The wrappers are compiled only
+// with the build tag "verif"; without it the package is empty.
+package verifhook
